@@ -148,11 +148,10 @@ fn variant_decl(it: &Item, fallback: &str) -> (String, String) {
     }
 }
 
-const CORPUS_PRELUDE: &str = r#"// GENERATED by /verif/mc/c15 (property C15). Do not edit.
-#![allow(warnings)]
-#![allow(non_snake_case, non_camel_case_types, uncommon_codepoints, mixed_script_confusables, confusable_idents)]
-use candid::types::{CandidType, Label, Type, TypeInner};
-use candid::{Decode, Encode, Nat};
+const CORPUS_PRELUDE: &str = r#"// GENERATED by /verif/mc/c15 (property C15). Do not edit. Included by every src/bin/*.rs.
+use candid::types::value::{IDLField, IDLValue};
+use candid::types::{Label, Type, TypeInner};
+use candid::{CandidType, Decode, Encode, IDLArgs, Nat};
 use serde::Deserialize;
 
 fn hexs(b: &[u8]) -> String {
@@ -196,7 +195,37 @@ where
             }
             Err(e) => (format!("ERR{}", hexs(format!("{e}").as_bytes())), "-".to_string()),
         };
-        format!("{}\t{}\t{}\t{}\t{}", hexs(text.as_bytes()), if labels.is_empty() { "-".to_string() } else { labels }, bytes, rt, "end")
+        // a message with one extra field (id - 1, id + 1) must decode to the same value
+        let xt = match t.as_ref() {
+            TypeInner::Record(fs) if fs.len() == 1 && *fs[0].ty == TypeInner::Nat => {
+                let id = fs[0].id.get_id();
+                let mut res = vec![];
+                for extra in [id.wrapping_sub(1), id.wrapping_add(1)] {
+                    let mut fields = vec![
+                        IDLField { id: Label::Id(id), val: IDLValue::Nat(Nat::from(42u32)) },
+                        IDLField { id: Label::Id(extra), val: IDLValue::Text("x".to_string()) },
+                    ];
+                    fields.sort_by_key(|f| f.id.get_id());
+                    let r = match IDLArgs::new(&[IDLValue::Record(fields)]).to_bytes() {
+                        Ok(b) => match Decode!(&b, T) {
+                            Ok(w) => {
+                                if w == v {
+                                    "1".to_string()
+                                } else {
+                                    "0:decoded value differs".to_string()
+                                }
+                            }
+                            Err(e) => format!("0:{}", hexs(format!("{e}").as_bytes())),
+                        },
+                        Err(e) => format!("0:{}", hexs(format!("encode: {e}").as_bytes())),
+                    };
+                    res.push(r);
+                }
+                res.join(";")
+            }
+            _ => "-".to_string(),
+        };
+        format!("{}\t{}\t{}\t{}\t{}\t{}", hexs(text.as_bytes()), if labels.is_empty() { "-".to_string() } else { labels }, bytes, rt, xt, "end")
     });
     match r {
         Ok(s) => println!("{kind}\t{i}\t{s}"),
@@ -210,35 +239,71 @@ pub struct Corpus {
     pub pairs: Vec<(Item, Item)>,
     /// labels of Big / BigE (pairwise distinct ids), in source order
     pub big: Vec<Item>,
-    pub source: String,
+    /// (binary target name, source); compiled in parallel by cargo
+    pub bins: Vec<(String, String)>,
+}
+
+pub const ITEM_BINS: usize = 16;
+pub const PAIR_BINS: usize = 2;
+
+/// In a two-field struct the type follows the label (the smaller spelling is `nat`), so that
+/// the two declaration orders of one label pair denote the same Candid type.
+fn pair_types(a: &Item, b: &Item) -> (bool, bool) {
+    let a_is_nat = a.label.as_bytes() < b.label.as_bytes();
+    (a_is_nat, !a_is_nat)
 }
 
 pub fn generate_corpus(c: &Collisions) -> Corpus {
     let items = corpus_items(c);
-    let mut src = String::from(CORPUS_PRELUDE);
-    let mut main = String::from("fn main() {\n");
-    for (i, it) in items.iter().enumerate() {
-        let (decl, ident) = field_decl(it, "f", "Nat");
-        src.push_str(&format!("#[derive(CandidType, Deserialize, PartialEq, Debug)]\npub struct S{i} {{ {decl} }}\n"));
-        main.push_str(&format!("    report(\"S\", {i}, S{i} {{ {ident}: Nat::from(42u32) }});\n"));
-        let (vdecl, vident) = variant_decl(it, "V");
-        src.push_str(&format!("#[derive(CandidType, Deserialize, PartialEq, Debug)]\npub enum E{i} {{ {vdecl} }}\n"));
-        main.push_str(&format!("    report(\"E\", {i}, E{i}::{vident});\n"));
+    let mut bins: Vec<(String, String)> = vec![];
+    let head = "// GENERATED by /verif/mc/c15 (property C15). Do not edit.\n#![allow(warnings)]\ninclude!(\"../common.rs\");\n";
+    let per = items.len().div_ceil(ITEM_BINS);
+    for (bi, chunk) in items.chunks(per).enumerate() {
+        let mut src = String::from(head);
+        let mut main = String::from("fn main() {\n");
+        for (off, it) in chunk.iter().enumerate() {
+            let i = bi * per + off;
+            let (decl, ident) = field_decl(it, "f", "Nat");
+            src.push_str(&format!("#[derive(CandidType, Deserialize, PartialEq, Debug)]\npub struct S{i} {{ {decl} }}\n"));
+            main.push_str(&format!("    report(\"S\", {i}, S{i} {{ {ident}: Nat::from(42u32) }});\n"));
+            let (vdecl, vident) = variant_decl(it, "V");
+            src.push_str(&format!("#[derive(CandidType, Deserialize, PartialEq, Debug)]\npub enum E{i} {{ {vdecl} }}\n"));
+            main.push_str(&format!("    report(\"E\", {i}, E{i}::{vident});\n"));
+        }
+        main.push_str("    println!(\"DONE\");\n}\n");
+        src.push_str(&main);
+        bins.push((format!("items{bi}"), src));
     }
     // two-field structs, all ordered pairs of distinct labels
     let pl = pair_labels();
     let mut pairs = vec![];
-    for a in &pl {
-        for b in &pl {
-            if a.label == b.label {
-                continue;
+    {
+        let mut all: Vec<(Item, Item)> = vec![];
+        for a in &pl {
+            for b in &pl {
+                if a.label != b.label {
+                    all.push((a.clone(), b.clone()));
+                }
             }
-            let k = pairs.len();
-            let (da, ia) = field_decl(a, "fa", "Nat");
-            let (db, ib) = field_decl(b, "fb", "String");
-            src.push_str(&format!("#[derive(CandidType, Deserialize, PartialEq, Debug)]\npub struct P{k} {{ {da}, {db} }}\n"));
-            main.push_str(&format!("    report(\"P\", {k}, P{k} {{ {ia}: Nat::from(1u32), {ib}: \"m\".to_string() }});\n"));
-            pairs.push((a.clone(), b.clone()));
+        }
+        let per = all.len().div_ceil(PAIR_BINS);
+        for (bi, chunk) in all.chunks(per).enumerate() {
+            let mut src = String::from(head);
+            let mut main = String::from("fn main() {\n");
+            for (a, b) in chunk {
+                let k = pairs.len();
+                let (an, bn) = pair_types(a, b);
+                let ty = |n: bool| if n { "Nat" } else { "String" };
+                let val = |n: bool| if n { "Nat::from(1u32)" } else { "\"m\".to_string()" };
+                let (da, ia) = field_decl(a, "fa", ty(an));
+                let (db, ib) = field_decl(b, "fb", ty(bn));
+                src.push_str(&format!("#[derive(CandidType, Deserialize, PartialEq, Debug)]\npub struct P{k} {{ {da}, {db} }}\n"));
+                main.push_str(&format!("    report(\"P\", {k}, P{k} {{ {ia}: {}, {ib}: {} }});\n", val(an), val(bn)));
+                pairs.push((a.clone(), b.clone()));
+            }
+            main.push_str("    println!(\"DONE\");\n}\n");
+            src.push_str(&main);
+            bins.push((format!("pairs{bi}"), src));
         }
     }
     // one struct and one enum with every label of the list (first occurrence of each id)
@@ -249,28 +314,40 @@ pub fn generate_corpus(c: &Collisions) -> Corpus {
             big.push(it.clone());
         }
     }
-    src.push_str("#[derive(CandidType, Deserialize, PartialEq, Debug)]\npub struct Big {\n");
-    let mut init = String::new();
-    for (j, it) in big.iter().enumerate() {
-        let (decl, ident) = field_decl(it, &format!("f{j}"), "Nat");
-        src.push_str(&format!("    {decl},\n"));
-        init.push_str(&format!("{ident}: Nat::from({j}u32), "));
+    {
+        let mut src = String::from(head);
+        let mut main = String::from("fn main() {\n");
+        src.push_str("#[derive(CandidType, Deserialize, PartialEq, Debug)]\npub struct Big {\n");
+        let mut init = String::new();
+        for (j, it) in big.iter().enumerate() {
+            let (decl, ident) = field_decl(it, &format!("f{j}"), "Nat");
+            src.push_str(&format!("    {decl},\n"));
+            init.push_str(&format!("{ident}: Nat::from({j}u32), "));
+        }
+        src.push_str("}\n");
+        main.push_str(&format!("    report(\"B\", 0, Big {{ {init} }});\n"));
+        // tuple struct: positional ids 0, 1
+        src.push_str("#[derive(CandidType, Deserialize, PartialEq, Debug)]\npub struct Tup(pub Nat, pub String);\n");
+        main.push_str("    report(\"T\", 0, Tup(Nat::from(1u32), \"m\".to_string()));\n");
+        main.push_str("    println!(\"DONE\");\n}\n");
+        src.push_str(&main);
+        bins.push(("big_struct".to_string(), src));
     }
-    src.push_str("}\n");
-    main.push_str(&format!("    report(\"B\", 0, Big {{ {init} }});\n"));
-    src.push_str("#[derive(CandidType, Deserialize, PartialEq, Debug)]\npub enum BigE {\n");
-    for (j, it) in big.iter().enumerate() {
-        let (decl, ident) = variant_decl(it, &format!("V{j}"));
-        src.push_str(&format!("    {decl},\n"));
-        main.push_str(&format!("    report(\"V\", {j}, BigE::{ident});\n"));
+    {
+        let mut src = String::from(head);
+        let mut main = String::from("fn main() {\n");
+        src.push_str("#[derive(CandidType, Deserialize, PartialEq, Debug)]\npub enum BigE {\n");
+        for (j, it) in big.iter().enumerate() {
+            let (decl, ident) = variant_decl(it, &format!("V{j}"));
+            src.push_str(&format!("    {decl},\n"));
+            main.push_str(&format!("    report(\"V\", {j}, BigE::{ident});\n"));
+        }
+        src.push_str("}\n");
+        main.push_str("    println!(\"DONE\");\n}\n");
+        src.push_str(&main);
+        bins.push(("big_enum".to_string(), src));
     }
-    src.push_str("}\n");
-    // tuple struct: positional ids 0, 1
-    src.push_str("#[derive(CandidType, Deserialize, PartialEq, Debug)]\npub struct Tup(pub Nat, pub String);\n");
-    main.push_str("    report(\"T\", 0, Tup(Nat::from(1u32), \"m\".to_string()));\n");
-    main.push_str("    println!(\"DONE\");\n}\n");
-    src.push_str(&main);
-    Corpus { items, pairs, big, source: src }
+    Corpus { items, pairs, big, bins }
 }
 
 fn cargo_toml(name: &str) -> String {
@@ -283,7 +360,7 @@ edition = "2021"
 publish = false
 
 [dependencies]
-candid = {{ path = "/repo/rust/candid" }}
+candid = {{ path = "/repo/rust/candid", features = ["value"] }}
 serde = {{ version = "1", features = ["derive"] }}
 
 [profile.dev]
@@ -308,6 +385,16 @@ pub fn write_if_changed(path: &str, content: &str) -> std::io::Result<bool> {
     }
     std::fs::write(path, content)?;
     Ok(true)
+}
+
+fn remove_stale(dir: &str, keep: &BTreeSet<String>) {
+    if let Ok(rd) = std::fs::read_dir(dir) {
+        for e in rd.flatten() {
+            if !keep.contains(&e.file_name().to_string_lossy().to_string()) {
+                let _ = std::fs::remove_file(e.path());
+            }
+        }
+    }
 }
 
 fn ensure_lock(dir: &str) -> std::io::Result<()> {
@@ -393,35 +480,42 @@ pub fn collide_bins(c: &Collisions) -> Vec<CollideBin> {
             it(s, Mode::Rename)
         }
     };
-    let mut pairs: Vec<(Item, Item, bool)> = vec![];
+    const BOTH: &[&str] = &["struct", "enum"];
+    const STRUCT: &[&str] = &["struct"];
+    const ENUM: &[&str] = &["enum"];
+    let mut pairs: Vec<(Item, Item, bool, &[&str])> = vec![];
     // one short identifier pair, one non-identifier pair, the keyword pair both ways of writing
-    // the keyword, a unicode pair, the long pair, the same name twice (field vs rename)
+    // the keyword, a unicode pair, the empty name, the long pair, the same name twice (field
+    // name vs rename); every rustc run costs time, so most pairs use one kind only
     if let Some((a, b)) = c.ident_pairs.first() {
-        pairs.push((auto(a), auto(b), true));
+        pairs.push((auto(a), auto(b), true, BOTH));
     }
     if let Some((a, b)) = c.nonident_pairs.first() {
-        pairs.push((auto(a), auto(b), true));
+        pairs.push((auto(a), auto(b), true, BOTH));
     }
     for (a, b) in &c.preimage_pairs {
         match b.as_str() {
             "type" => {
-                pairs.push((auto(a), it("type", Mode::Raw), true));
-                pairs.push((it("type", Mode::Rename), auto(a), true));
+                pairs.push((auto(a), it("type", Mode::Raw), true, STRUCT));
+                pairs.push((it("type", Mode::Rename), auto(a), true, ENUM));
             }
-            "foo" => pairs.push((auto(b), auto(a), true)),
-            "\u{540d}\u{524d}" => pairs.push((it(b, Mode::Direct), auto(a), true)),
-            "" => pairs.push((auto(a), it("", Mode::RenameSer), true)),
+            "foo" => pairs.push((auto(b), auto(a), true, ENUM)),
+            "\u{540d}\u{524d}" => pairs.push((it(b, Mode::Direct), auto(a), true, STRUCT)),
+            "" => pairs.push((auto(a), it("", Mode::RenameSer), true, ENUM)),
             _ => {}
         }
     }
-    pairs.push((auto(&c.long_pair.0), auto(&c.long_pair.1), true));
-    pairs.push((it("foo", Mode::Direct), it("foo", Mode::Rename), true));
+    pairs.push((auto(&c.long_pair.0), auto(&c.long_pair.1), true, STRUCT));
+    pairs.push((it("foo", Mode::Direct), it("foo", Mode::Rename), true, BOTH));
     // controls: distinct ids must compile
-    pairs.push((it("foo", Mode::Direct), it("bar", Mode::Direct), false));
-    pairs.push((it("type", Mode::Raw), it("a b", Mode::Rename), false));
+    pairs.push((it("foo", Mode::Direct), it("bar", Mode::Direct), false, ENUM));
+    pairs.push((it("type", Mode::Raw), it("a b", Mode::Rename), false, STRUCT));
     let mut out = vec![];
-    for (n, (a, b, must_fail)) in pairs.into_iter().enumerate() {
+    for (n, (a, b, must_fail, kinds)) in pairs.into_iter().enumerate() {
         for kind in ["struct", "enum"] {
+            if !kinds.contains(&kind) {
+                continue;
+            }
             let name = format!("{}{n}_{kind}", if must_fail { "collide" } else { "control" });
             let body = if kind == "struct" {
                 let (da, _) = field_decl(&a, "fa", "candid::Nat");
@@ -433,13 +527,14 @@ pub fn collide_bins(c: &Collisions) -> Vec<CollideBin> {
                 format!("#[derive(candid::CandidType, serde::Deserialize)]\npub enum X {{\n    {da},\n    {db},\n}}\n")
             };
             let source = format!(
-                "// GENERATED by /verif/mc/c15 (property C15). Do not edit.\n// labels: {:?} ({}) and {:?} ({}), ids {} and {}\n#![allow(warnings)]\n{body}fn main() {{\n    let _ = <X as candid::types::CandidType>::ty();\n}}\n",
+                "// GENERATED by /verif/mc/c15 (property C15). Do not edit.\n// labels: {:?} ({}) and {:?} ({}), ids {} and {}\n#![allow(warnings)]\n{body}fn main() {{{}}}\n",
                 a.label,
                 a.mode.name(),
                 b.label,
                 b.mode.name(),
                 h(&a.label),
-                h(&b.label)
+                h(&b.label),
+                if must_fail { "" } else { "\n    let _ = <X as candid::types::CandidType>::ty();\n" }
             );
             out.push(CollideBin { name, kind, a: a.clone(), b: b.clone(), must_fail, source });
         }
@@ -460,18 +555,16 @@ pub fn write_crates(c: &Collisions) -> Result<Prepared, String> {
     let mut rewritten = 0;
     let corpus = generate_corpus(c);
     rewritten += write_if_changed(&format!("{CORPUS_DIR}/Cargo.toml"), &cargo_toml("derive_corpus")).map_err(io)? as u32;
-    rewritten += write_if_changed(&format!("{CORPUS_DIR}/src/main.rs"), &corpus.source).map_err(io)? as u32;
+    rewritten += write_if_changed(&format!("{CORPUS_DIR}/src/common.rs"), CORPUS_PRELUDE).map_err(io)? as u32;
+    let _ = std::fs::remove_file(format!("{CORPUS_DIR}/src/main.rs"));
+    remove_stale(&format!("{CORPUS_DIR}/src/bin"), &corpus.bins.iter().map(|b| format!("{}.rs", b.0)).collect());
+    for (name, src) in &corpus.bins {
+        rewritten += write_if_changed(&format!("{CORPUS_DIR}/src/bin/{name}.rs"), src).map_err(io)? as u32;
+    }
     ensure_lock(CORPUS_DIR).map_err(io)?;
     let bins = collide_bins(c);
     rewritten += write_if_changed(&format!("{COLLIDE_DIR}/Cargo.toml"), &cargo_toml("derive_collide")).map_err(io)? as u32;
-    let keep: BTreeSet<String> = bins.iter().map(|b| format!("{}.rs", b.name)).collect();
-    if let Ok(rd) = std::fs::read_dir(format!("{COLLIDE_DIR}/src/bin")) {
-        for e in rd.flatten() {
-            if !keep.contains(&e.file_name().to_string_lossy().to_string()) {
-                let _ = std::fs::remove_file(e.path());
-            }
-        }
-    }
+    remove_stale(&format!("{COLLIDE_DIR}/src/bin"), &bins.iter().map(|b| format!("{}.rs", b.name)).collect());
     for b in &bins {
         rewritten += write_if_changed(&format!("{COLLIDE_DIR}/src/bin/{}.rs", b.name), &b.source).map_err(io)? as u32;
     }
@@ -487,12 +580,12 @@ pub enum BuildOutcome {
 
 /// Build the corpus. `Err` = machinery failure (cargo missing, dependency build failure, ...).
 pub fn build_corpus() -> Result<BuildOutcome, String> {
-    let out = cargo(CORPUS_DIR, &["build", "--offline", "--message-format=json"]).map_err(|e| format!("cannot run cargo: {e}"))?;
+    let out = cargo(CORPUS_DIR, &["build", "--offline", "--bins", "--keep-going", "--message-format=json"]).map_err(|e| format!("cannot run cargo: {e}"))?;
     let (diags, _arts, success) = parse_cargo_json(&out.stdout);
     if out.status.success() {
         return Ok(BuildOutcome::Built);
     }
-    let errs: Vec<Diag> = diags.into_iter().filter(|d| d.level == "error" && d.target == "derive_corpus").collect();
+    let errs: Vec<Diag> = diags.into_iter().filter(|d| d.level == "error" && !d.message.starts_with("aborting due to")).collect();
     let derive_errs: Vec<Diag> = errs.iter().filter(|d| d.message.contains("proc-macro derive panicked") || d.message.contains("proc macro panicked")).cloned().collect();
     if !derive_errs.is_empty() && success == Some(false) {
         return Ok(BuildOutcome::DeriveErrors(derive_errs));
@@ -530,6 +623,8 @@ struct Line {
     labels: Vec<(char, String, u32)>,
     bytes: Result<Vec<u8>, String>,
     rt: String,
+    /// decode results for messages with one extra field ("-" when not applicable)
+    xt: String,
 }
 
 fn unhex_str(s: &str) -> String {
@@ -537,7 +632,7 @@ fn unhex_str(s: &str) -> String {
 }
 
 fn parse_line(fields: &[&str]) -> Option<Line> {
-    if fields.len() < 5 {
+    if fields.len() < 6 {
         return None;
     }
     let ty_text = unhex_str(fields[0]);
@@ -554,7 +649,7 @@ fn parse_line(fields: &[&str]) -> Option<Line> {
         }
     }
     let bytes = if let Some(e) = fields[2].strip_prefix("ERR") { Err(unhex_str(e)) } else { hex::decode(fields[2]).map_err(|e| format!("{e}")) };
-    Some(Line { ty_text, labels, bytes, rt: fields[3].to_string() })
+    Some(Line { ty_text, labels, bytes, rt: fields[3].to_string(), xt: fields[4].to_string() })
 }
 
 fn real_type_from(kind_record: bool, labels: &[(char, String, u32)], tys: &[Type]) -> Type {
@@ -607,9 +702,10 @@ pub fn run_derive(c: &Collisions, rep: &mut Report, lim: &Limits, only_key: Opti
     let mut compared = 0u64;
     match built {
         BuildOutcome::DeriveErrors(diags) => {
-            // attribute each error to the item declared on that source line
-            let lines: Vec<&str> = corpus.source.lines().collect();
+            // attribute each error to the item declared after the `#[derive]` line it points to
             for d in diags {
+                let src = corpus.bins.iter().find(|b| b.0 == d.target).map(|b| b.1.as_str()).unwrap_or("");
+                let lines: Vec<&str> = src.lines().collect();
                 let decl = lines.get(d.line as usize).copied().unwrap_or("").trim().to_string();
                 local.violation(
                     &format!("derive|compile|{}", decl.split('{').next().unwrap_or("").replace("pub ", "")),
@@ -619,14 +715,18 @@ pub fn run_derive(c: &Collisions, rep: &mut Report, lim: &Limits, only_key: Opti
             }
         }
         BuildOutcome::Built => {
-            let exe = format!("{TARGET_DIR}/debug/derive_corpus");
-            let out = match Command::new(&exe).output() {
-                Ok(o) => o,
-                Err(e) => return fail(format!("cannot run {exe}: {e}")),
-            };
-            let stdout = String::from_utf8_lossy(&out.stdout).to_string();
-            if !out.status.success() || !stdout.lines().any(|l| l == "DONE") {
-                return fail(format!("{exe} did not finish (status {:?}); stderr: {}", out.status.code(), String::from_utf8_lossy(&out.stderr).lines().take(5).collect::<Vec<_>>().join(" / ")));
+            let mut stdout = String::new();
+            for (name, _) in &corpus.bins {
+                let exe = format!("{TARGET_DIR}/debug/{name}");
+                let out = match Command::new(&exe).output() {
+                    Ok(o) => o,
+                    Err(e) => return fail(format!("cannot run {exe}: {e}")),
+                };
+                let so = String::from_utf8_lossy(&out.stdout).to_string();
+                if !out.status.success() || !so.lines().any(|l| l == "DONE") {
+                    return fail(format!("{exe} did not finish (status {:?}); stderr: {}", out.status.code(), String::from_utf8_lossy(&out.stderr).lines().take(5).collect::<Vec<_>>().join(" / ")));
+                }
+                stdout.push_str(&so);
             }
             let mut by: BTreeMap<(String, usize), Vec<String>> = BTreeMap::new();
             for l in stdout.lines() {
@@ -745,6 +845,18 @@ pub fn run_derive(c: &Collisions, rep: &mut Report, lim: &Limits, only_key: Opti
                         let why = line.rt.strip_prefix("0:").map(unhex_str).unwrap_or(line.rt.clone());
                         local.violation(&format!("{key}|roundtrip"), format!("Decode! of the type's own encoding failed: {why}"), case.clone());
                     }
+                    if is_rec {
+                        for (n, part) in line.xt.split(';').enumerate() {
+                            if part != "1" {
+                                let why = part.strip_prefix("0:").map(|x| if x.chars().all(|c| c.is_ascii_hexdigit()) { unhex_str(x) } else { x.to_string() }).unwrap_or(part.to_string());
+                                local.violation(
+                                    &format!("{key}|extra-field-{}", if n == 0 { "below" } else { "above" }),
+                                    format!("Decode! of a record with this field (id {id}) and one extra field (id {}) into the derived struct failed: {why}", if n == 0 { id.wrapping_sub(1) } else { id.wrapping_add(1) }),
+                                    case.clone(),
+                                );
+                            }
+                        }
+                    }
                     local.nontrivial += (it.mode != Mode::Direct) as u64;
                     local.outcome(&format!("derive:{}:{}", if is_rec { "struct" } else { "enum" }, it.mode.name()));
                 }
@@ -760,7 +872,10 @@ pub fn run_derive(c: &Collisions, rep: &mut Report, lim: &Limits, only_key: Opti
                 let (ia, ib) = (h(&a.label), h(&b.label));
                 let key = format!("derive|struct2|{}:{}|{}:{}", a.mode.name(), klabel(&a.label), b.mode.name(), klabel(&b.label));
                 let case = json!({"part": "derive", "item": format!("P{k}"), "labels": [a.label, b.label], "modes": [a.mode.name(), b.mode.name()], "expected_ids": [ia, ib], "ty_text": line.ty_text});
-                let mut want = vec![(ia, a.label.clone(), nat.clone(), Ty::Prim(P::Nat), Val::nat(1)), (ib, b.label.clone(), text.clone(), Ty::Prim(P::Text), Val::Text("m".into()))];
+                let (an, _) = pair_types(a, b);
+                let natf = |id: u32, l: &str| (id, l.to_string(), nat.clone(), Ty::Prim(P::Nat), Val::nat(1));
+                let textf = |id: u32, l: &str| (id, l.to_string(), text.clone(), Ty::Prim(P::Text), Val::Text("m".into()));
+                let mut want = if an { vec![natf(ia, &a.label), textf(ib, &b.label)] } else { vec![textf(ia, &a.label), natf(ib, &b.label)] };
                 want.sort_by_key(|w| w.0);
                 let ids: Vec<u32> = line.labels.iter().map(|l| l.2).collect();
                 if ids != want.iter().map(|w| w.0).collect::<Vec<_>>() {
@@ -771,7 +886,7 @@ pub fn run_derive(c: &Collisions, rep: &mut Report, lim: &Limits, only_key: Opti
                     local.violation(&format!("{key}|labels"), format!("derived `{}` has labels {names:?}, expected {:?}", line.ty_text, want.iter().map(|w| w.1.clone()).collect::<Vec<_>>()), case.clone());
                 }
                 let derived = real_type_from(true, &line.labels, &want.iter().map(|w| w.2.clone()).collect::<Vec<_>>());
-                let ptext = format!("record {{ {} : nat; {} : text }}", quote_candid(&a.label), quote_candid(&b.label));
+                let ptext = format!("record {{ {} : {}; {} : {} }}", quote_candid(&a.label), if an { "nat" } else { "text" }, quote_candid(&b.label), if an { "text" } else { "nat" });
                 match parse_type(&ptext) {
                     Ok(pt) => {
                         if let Err(e) = real_equal(&derived, &pt) {
@@ -898,7 +1013,7 @@ pub fn run_derive(c: &Collisions, rep: &mut Report, lim: &Limits, only_key: Opti
     let stderr = String::from_utf8_lossy(&out.stderr).to_string();
     // machinery check: every target was either compiled or diagnosed
     for b in &prep.bins {
-        let errs: Vec<&Diag> = diags.iter().filter(|d| d.target == b.name && d.level == "error").collect();
+        let errs: Vec<&Diag> = diags.iter().filter(|d| d.target == b.name && d.level == "error" && !d.message.starts_with("aborting due to")).collect();
         let built = artifacts.iter().any(|a| a == &b.name) && Path::new(&format!("{TARGET_DIR}/debug/{}", b.name)).exists() && errs.is_empty();
         if !built && errs.is_empty() {
             return fail(format!("target {} of {COLLIDE_DIR} was neither built nor diagnosed; cargo stderr: {}", b.name, stderr.lines().rev().take(8).collect::<Vec<_>>().join(" / ")));
